@@ -224,11 +224,35 @@ func (t *Tr) alloc(in *ssa.Alloc) {
 	elem := in.Type().Underlying().(*types.Pointer).Elem()
 	a := t.addrOfTerm(ref, elem)
 	t.zeroInit(t.cur, a)
+	t.allocInvs(a)
 	if !in.Heap {
 		t.locals = append(t.locals, in)
 	}
 	if in.Comment != "" && in.Comment != "complit" && in.Comment != "varargs" && in.Comment != "new" {
 		t.addDebug(in.Comment, in)
+	}
+}
+
+// allocInvs assumes the declared facts about freshly zero-allocated values
+// (e.g. a zero container/list.List is an empty ghost window), for the value
+// itself and every struct nested in it by value.
+func (t *Tr) allocInvs(a *Addr) {
+	if a.Kind != aStruct {
+		return
+	}
+	key := shortKey(types.TypeString(a.Ty, nil))
+	if ai, ok := t.w.CS.AllocInvs[key]; ok {
+		env := &Env{t: t, vars: map[string]Val{"self": {T: Term{a.Obj, SInt_}, Ty: types.NewPointer(a.Ty)}}, cur: t.cur, pkg: ai.Pkg}
+		s, err := env.evalClause(ai.E)
+		if err != nil {
+			efail("%s:%d: allocinv: %v", ai.File, ai.Line, err)
+		}
+		t.assumeCl(s, false)
+		t.vc.Trusted["allocinv "+key+": "+ai.Src] = true
+	}
+	stt := a.Ty.Underlying().(*types.Struct)
+	for i := 0; i < stt.NumFields(); i++ {
+		t.allocInvs(t.fieldAddr(a.Ty, i, a.Obj))
 	}
 }
 
@@ -623,8 +647,7 @@ func (t *Tr) typeAssert(in *ssa.TypeAssert) {
 	at := in.AssertedType
 	if _, isIface := at.Underlying().(*types.Interface); isIface {
 		// interface-to-interface: the dynamic type must implement it
-		name := "impl_" + typeKey(at)
-		t.vc.declFun(name, fmt.Sprintf("(declare-fun %s (Int) Bool)", name))
+		name := t.vc.implPred(at)
 		ok := fmt.Sprintf("(and (not (= (i-tag %s) 0)) (%s (i-tag %s)))", x.S, name, x.S)
 		if in.CommaOk {
 			t.tuples[in] = []Term{{fmt.Sprintf("(ite %s %s (mk-iface 0 0))", ok, x.S), SIfc}, {ok, SBool_}}
